@@ -217,7 +217,10 @@ func runC19(rep *Report, tier string, seed int64, replay string) {
 		// two receivers with different contexts on one key, the first one's context ends, a publish follows, then Close / Free
 		"R00 R01 X0 P0 C", "R00 R01 X0 P0 F0", "R00 F0 R01 P0 C",
 		// Close / Free are idempotent, with or without a cause
-		"R00 C C", "C R00 C", "R00 F0 F0", "R00 R10 C C"} {
+		"R00 C C", "C R00 C", "R00 F0 F0", "R00 R10 C C",
+		// three receivers on one key with two contexts; the creator's context ends before the third registers; then Free:
+		// EVERY receiver of the key is released, whatever entry it stands on
+		"R00 R01 X0 R01 F0", "R00 R01 X0 R01 C", "R00 R01 X0 R01 P0 F0"} {
 		jobs = append(jobs, job{parseBcOps(c)})
 	}
 	for n := 1; n <= maxOps; n++ {
